@@ -66,6 +66,9 @@ fn check_scale(cfg: &Cfg, ops: &[Op], base: &[Out], c: f64, out: &mut JobOut) ->
     let rel = if pow2 { 1e-12 } else { 1e-9 };
     let mut m = 0.0f64;
     for i in 0..ops.len() {
+        if matches!(ops[i], Op::Reset) {
+            continue;
+        }
         m = m.max(ops[i].maxmag());
         let (a, b) = (&base[i], &sc[i]);
         let mut bad: Option<String> = None;
@@ -163,6 +166,9 @@ fn check_shift(cfg: &Cfg, ops: &[Op], base: &[Out], d: f64, out: &mut JobOut) ->
     out.stats.transitions += ops.len() as u64;
     let mut m = 0.0f64;
     for i in 0..ops.len() {
+        if matches!(ops[i], Op::Reset) {
+            continue;
+        }
         m = m.max(ops[i].maxmag());
         let unit = m + d.abs();
         let (a, b) = (&base[i], &sh[i]);
@@ -234,27 +240,35 @@ pub fn run(ctx: &Ctx) -> CheckResult {
     let mut factors: Vec<f64> = ks.iter().map(|k| 2f64.powi(*k)).collect();
     factors.extend([3.0, 0.1, 7.3, 1e-3]);
     let shifts = [0.5, 1.0, 100.0];
-    let mut jobs: Vec<(Cfg, Vec<Op>, usize)> = vec![];
+    // prices around 1e301 scaled to 2e307: "100 * (x - low)" style reorderings overflow only there
+    let factors_huge: Vec<f64> = vec![2f64.powi(21), 2f64.powi(20), 2f64.powi(-30)];
+    let huge_alpha = s_ops(&[1e300, 2e300, 9.9e300, 4e300]);
+    let mut jobs: Vec<(Cfg, Vec<Op>, usize, bool)> = vec![];
     for k in ALL_KINDS {
         if k == Kind::Rsi {
             continue;
         }
         for cfg in generic_cfgs(k, &[1, 2, 3, 5], &[1, 2, 5]) {
             if k.has_scalar() {
-                jobs.push((cfg, s_ops(&S_POS), ds));
+                jobs.push((cfg, s_ops(&S_POS), ds, false));
+                // the instance re-used through reset() in mid-stream
+                jobs.push((cfg, with_reset(s_ops(&S_POS[..3])), ds, false));
+                if !matches!(k, Kind::Sma | Kind::Wma | Kind::Sd | Kind::Mad | Kind::Bb | Kind::Kc | Kind::Cci) {
+                    jobs.push((cfg, huge_alpha.clone(), ds - 1, true));
+                }
                 // with one value 10^6 times larger: residue of a spike that already left the window
                 // must not make a dimensionless output depend on the price unit
                 let mut spike = S_POS.to_vec();
                 spike.push(1e6);
-                jobs.push((cfg, s_ops(&spike), ds - 1));
+                jobs.push((cfg, s_ops(&spike), ds - 1, false));
             }
             if k.bar_native() {
                 let alpha = if matches!(k, Kind::Mfi | Kind::Obv) { b_ops(&b_vol()[..12]) } else { b_ops(&b_grid()) };
-                jobs.push((cfg, alpha, dbar));
+                jobs.push((cfg, alpha, dbar, false));
             }
         }
     }
-    let outs = par_run(ctx, &jobs, |_, (cfg, alpha, depth)| {
+    let outs = par_run(ctx, &jobs, |_, (cfg, alpha, depth, huge)| {
         let mut out = JobOut::default();
         let mut ops: Vec<Op> = vec![];
         let mut n = 0u64;
@@ -276,10 +290,13 @@ pub fn run(ctx: &Ctx) -> CheckResult {
                     return false;
                 }
             };
-            for &c in &factors {
+            for &c in if *huge { &factors_huge } else { &factors } {
                 if !check_scale(cfg, &ops, &base, c, &mut out) {
                     return false;
                 }
+            }
+            if *huge {
+                return true;
             }
             for &d in &shifts {
                 if !check_shift(cfg, &ops, &base, d, &mut out) {
@@ -328,6 +345,6 @@ pub fn run(ctx: &Ctx) -> CheckResult {
     }
     res.extra.insert("scale_factors".into(), json!(factors.len()));
     res.rule = "case = (configuration, stream, transform): two real instances fed x and c*x (or x+d) step by step; price-valued outputs must scale by c (shift by d), dimensionless ones stay unchanged, within 1e-12 relative to c*M for powers of two and 1e-9 (times the condition number, gated at 1e6) otherwise; SD and Bollinger half-widths compared as variances; non-trivial = step beyond the window".into();
-    res.bounds = format!("all indicators except RSI, periods {{1,2,3,5}}: all 4^{ds} positive scalar streams (and all 5^(depth-1) streams with a 1e6 spike symbol) / all bar streams of length {dbar} over the grid; scale factors 2^k for k in {} plus 3, 0.1, 7.3, 1e-3; shifts 0.5, 1, 100; Maximum(x) = -Minimum(-x) on all 5^{} mixed-sign streams", if th { "-40..=40".to_string() } else { format!("{:?}", ks) }, if th { 9 } else { 8 });
+    res.bounds = format!("all indicators except RSI, periods {{1,2,3,5}}: all 4^{ds} positive scalar streams, all 4^{ds} streams over 3 values + reset, all streams over {{1e300,2e300,9.9e300,4e300}} with factors 2^21, 2^20, 2^-30 (indicators without running sums) (and all 5^(depth-1) streams with a 1e6 spike symbol) / all bar streams of length {dbar} over the grid; scale factors 2^k for k in {} plus 3, 0.1, 7.3, 1e-3; shifts 0.5, 1, 100; Maximum(x) = -Minimum(-x) on all 5^{} mixed-sign streams", if th { "-40..=40".to_string() } else { format!("{:?}", ks) }, if th { 9 } else { 8 });
     res
 }
